@@ -67,7 +67,7 @@ def showEObj (o : EObj) : String :=
     ++ o.pf.map (fun (f : EField) => "F:" ++ f.name ++ ":" ++ showSlot f.slot)
     ++ o.cf.map (fun (f : ECellField) => "C:" ++ f.name ++ ":" ++ f.ctype ++ ":" ++ showSlot f.slot))
 
-def showIds (l : List ArrId) : String := if l.isEmpty then "-" else ",".intercalate (l.map toString)
+def showIds (l : List Nat) : String := if l.isEmpty then "-" else ",".intercalate (l.map toString)
 
 /-- per-step report: (written existing ids, result, files) -/
 def histReport (w : World) : List EStep → List (String × String × String)
